@@ -168,6 +168,9 @@ class ProgramTransformer(_ast.Transformer):
                 atom = wrap(atom.location, _ast.BooleanConstant(True))
             elif atom.term.name == "false":
                 atom = wrap(atom.location, _ast.BooleanConstant(False))
+        elif atom.term.ast_type == _ast.ASTType.Function and atom.term.name in ("tel", "del"):
+            # the time point is added by the transformer; it cannot be given in the input
+            raise RuntimeError("temporal theory atoms must not have arguments: {}".format(_tf.str_location(atom.location)))
         return atom
 
     def visit_Program(self, prg):
